@@ -6197,6 +6197,11 @@ func (p *parser) parseFn(
 	p.fnOrArrowDataParse.allowSuperCall = data.allowSuperCall
 	p.fnOrArrowDataParse.allowSuperProperty = data.allowSuperProperty
 
+	// "in" expressions are allowed in default values even when the function
+	// expression itself is inside the initializer of a "for" loop
+	oldAllowIn := p.allowIn
+	p.allowIn = true
+
 	for p.lexer.Token != js_lexer.TCloseParen {
 		// Skip over "this" type annotations
 		if p.options.ts.Parse && p.lexer.Token == js_lexer.TThis {
@@ -6360,6 +6365,7 @@ func (p *parser) parseFn(
 
 	p.lexer.Expect(js_lexer.TCloseParen)
 	p.fnOrArrowDataParse = oldFnOrArrowData
+	p.allowIn = oldAllowIn
 
 	// "function foo(): any {}"
 	if p.options.ts.Parse && p.lexer.Token == js_lexer.TColon {
